@@ -5,6 +5,38 @@ def _leq(kind, a, b):
     return set(a) <= set(b) if kind == "cpuset" else a <= b
 
 
+RECOVER_HOWS = ("disabled", "cfsquota", "becpumgr", "static")
+
+
+def _snapshot_before(seg, b):
+    for k in range(b - 1, -1, -1):
+        if "files" in seg[k] or "old" in seg[k]:
+            return seg[k].get("files", seg[k].get("old"))
+    return None
+
+
+def _shifted_single_pass(seg, b, i, par):
+    """rewrite begun at seg[b]: the target does not cover the old values, and every write up to event i put a cgroup's target
+    into a cgroup whose parent already held its target (one top-down pass of the target values)"""
+    tgt = [set(x) for x in seg[b].get("target", [])]
+    old = _snapshot_before(seg, b)
+    if old is None or len(old) != len(tgt) or len(par) != len(tgt):
+        return False
+    val = [set(x) for x in old]
+    if all(val[n] <= tgt[n] for n in range(len(tgt))):
+        return False                      # the pool covers what is held: a plain widening, V is demanded
+    for k in range(b + 1, i + 1):
+        ev = seg[k]
+        if ev.get("op") != "call":
+            return False
+        f = [set(x) for x in ev.get("files", [])]
+        for n in ev.get("written", []):
+            if f[n - 1] != tgt[n - 1] or (par[n - 1] and val[par[n - 1] - 1] != tgt[par[n - 1] - 1]):
+                return False
+        val = f
+    return True
+
+
 def sig(fl):
     """label of a rejected event (diagnostic + known-finding key only; the verdict was TLC's)"""
     seg = fl["segment"]
@@ -24,7 +56,14 @@ def sig(fl):
     if e.get("op") == "call":
         f = e.get("files", [])
         bad = [n + 1 for n in range(len(par)) if par[n] and n < len(f) and not _leq(kind, f[n], f[par[n] - 1])]
-        return "%s clause=%s" % (head, "V" if bad else "call-inconsistent")
+        if not bad:
+            return "%s clause=call-inconsistent" % head
+        how = seg[b].get("how", "cpuset") if b is not None else "cpuset"
+        if r.get("driver") == "suppress" and how in RECOVER_HOWS:
+            # the rounds that recover BE cgroups to the BE pool: is this the recorded single top-down pass towards a pool that
+            # does not cover what the cgroups held (mirror of `excused` in CgroupTreeTrace.tla)?
+            return "%s clause=V how=%s%s" % (head, how, " kind=recover-writes-shifted-pool-top-down" if _shifted_single_pass(seg, b, i, par) else "")
+        return "%s clause=V" % head
     if e.get("op") == "done" and b is not None:
         tgt = seg[b].get("target", [])
         old = seg[b - 1].get("files", seg[b - 1].get("old")) if b >= 1 else None
@@ -102,10 +141,12 @@ CONF = {
         "reserved by the node annotation, so the 10%-of-the-node growth limit per round never cuts a step), an LSE pod holds the "
         "pool CPUs outside the target and the node usage leaves |target| CPUs to BE - every selection of |target| out of "
         "|target| eligible CPUs is the target; WHICH cpuset a round should pick is property C10's subject, not C12's",
-        "the rounds that leave the cpuset policy run with no LSE pod / system-exclusive CPU inside the BE pool, and kubelet's "
-        "cpu manager policy is none: their target is the whole pool (0..ncpu-1) for every BE cgroup, i.e. a pure widening. "
-        "A pool that SHIFTS between rounds (LSE pods or reservations changing while BE cgroups hold other CPUs; the static "
-        "kubelet policy branch, which recovers the upper levels to the shifting pool) is written by recoverCPUSetIfNeed in "
-        "one top-down pass and is not generated (see the limits in the C12 report)",
+        "the rounds that leave the cpuset policy (disabled / cfsquota / becpumgr) aim at the BE pool 0..ncpu-1, in two of five "
+        "cases minus the CPUs an LSE pod holds meanwhile (`lse`): the pool may then no longer cover what the BE cgroups hold "
+        "(shifted pool); one cpuset round in six runs under kubelet's static cpu manager policy (`how=static`: "
+        "recoverCPUSetIfNeed for root and pods, applyCPUSetWithStaticPolicy for the containers), where the steering makes the "
+        "pool equal to the round's target. The single top-down pass of these paths towards a shifted pool breaks (V) on the "
+        "unchanged tree: recorded finding C12-recover-writes-shifted-pool-top-down (switch VERIF_TOLERATE_C12_RECOVER)",
+        "pods whose containers recoverCPUSetForBECPUManager leaves out (own cpuset / NUMA resources) are not generated",
     ],
 }
